@@ -619,6 +619,15 @@ def _same(x, y):
         _close(a, b) for a, b in zip(x, y))
 
 
+def _show(x):
+    """a Fraction for a message (the exact value may be outside the float range)."""
+    try:
+        return float(x)
+    except OverflowError:
+        x = Fraction(x)
+        return "%s1e%d" % ("-" if x < 0 else "", len(str(abs(x.numerator))) - len(str(x.denominator)))
+
+
 def _value_check(case, val, wit, perfect=False):
     """None if val is the textbook value (through the root's defining equation), else text."""
     import math
@@ -631,16 +640,16 @@ def _value_check(case, val, wit, perfect=False):
     if deg == 1:
         want = post(pre)
         if len(want) != len(val) or not all(_close(a, b) for a, b in zip(val, want)):
-            return "got %s expected %s" % (val, [float(x) for x in want])
+            return "got %s expected %s" % (val, [_show(x) for x in want])
         return None
     if isinstance(wit, dict) or len(wit) != len(pre):
         return "per-output values %s, expected %d outputs" % (wit, len(pre))
     for s, x in zip(wit, pre):
         if s < 0 or not _close(Fraction(s) ** deg, x):
-            return "per-output value %r is not the degree-%d root of %s" % (s, deg, float(x))
+            return "per-output value %r is not the degree-%d root of %s" % (s, deg, _show(x))
     want = post([Fraction(s) for s in wit])
     if len(want) != len(val) or not all(_close(a, b) for a, b in zip(val, want)):
-        return "got %s expected %s (aggregate of roots %s)" % (val, [float(x) for x in want], wit)
+        return "got %s expected %s (aggregate of roots %s)" % (val, [_show(x) for x in want], wit)
     return None
 
 
